@@ -854,7 +854,30 @@ func init() {
 						c.Violation("type-with-methods", fmt.Sprintf("%s on a struct whose type has String/Error/MarshalText methods gave %s, want %q", src, got.Describe(), want), map[string]any{"source": src})
 					}
 				}}
-			return []core.Section{reuse, sameName, large, shared, entries, namesLike, methods, {Name: "generated-values", N: n,
+			// keys taken from the data (not spelled in the template): the key is looked up byte for byte, whatever it looks like
+			keyStrings := []string{"R&amp;D", "R&D", "a&lt;b", "a<b", "&#39;x", "'x", "&quot;", "\"", "caf\xe9", "café", " lead", "trail ", "", "Name", "name", "x.y", "0", "loop", "nil", "&amp;amp;", "%d", "a\nb"}
+			varKeys := core.Section{Name: "keys-held-in-variables", Exhaustive: true, N: len(keyStrings),
+				Run: func(c *core.Ctx, i int) {
+					labels := map[string]any{}
+					for k, ks := range keyStrings {
+						labels[ks] = k + 100
+					}
+					k := keyStrings[i]
+					src := "{{ labels[k] }}|{{ labels[ks[0]] }}|@each(x in ks)@if(loop.index == " + fmt.Sprint(i) + "){{ labels[x] }}@end@end"
+					want := fmt.Sprintf("%d|%d|%d", i+100, i+100, i+100)
+					c.Input(map[string]any{"source": src, "key": k})
+					got := evalString(c, src, map[string]any{"labels": labels, "k": k, "ks": append([]string{k}, keyStrings[1:]...)})
+					if i > 0 {
+						got = evalString(c, src, map[string]any{"labels": labels, "k": k, "ks": func() []string { out := append([]string{}, keyStrings...); out[0], out[i] = out[i], out[0]; return out }()})
+						// (position i of ks then holds key 0: adjust the third probe)
+						want = fmt.Sprintf("%d|%d|%d", i+100, i+100, 100)
+					}
+					c.Nontrivial("varkey:" + k)
+					if !got.Panicked && (got.Err != nil || got.Out != want) {
+						c.Violation("key-held-in-variable", fmt.Sprintf("with k = %q, %s gave %s, want %q", k, src, got.Describe(), want), map[string]any{"source": src, "key": k})
+					}
+				}}
+			return []core.Section{reuse, sameName, large, shared, entries, namesLike, methods, varKeys, {Name: "generated-values", N: n,
 				Run: func(c *core.Ctx, i int) {
 					depth := 1 + i%4
 					// the same seed builds the value twice: one is rendered, one is the reference copy
